@@ -23,20 +23,21 @@ FILE_VARIANTS = {
     "nometa": ("md5", H1, None),
     "exec": ("md5", H1, (1, True)),
     "legacy": ("md5-dos2unix", H1, (1, False)),
+    "ino": ("md5", H1, (1, False, 77)),   # h1 replaced atomically: only the inode differs
 }
 
 
 def universe(tier):
     if tier == "thorough":
         return {
-            "top": ["h1", "h2", "nohash", "nometa", "exec", "legacy"],
-            "child": ["h1", "h2", "nohash", "nometa", "exec"],
+            "top": ["h1", "h2", "nohash", "nometa", "exec", "legacy", "ino"],
+            "child": ["h1", "h2", "nohash", "nometa", "exec", "ino"],
             "b": ["h1", "h2", "nohash", "exec"],
             "nest": True,
         }
     return {
-        "top": ["h1", "h2", "nohash", "exec"],
-        "child": ["h1", "h2", "nometa"],
+        "top": ["h1", "h2", "nohash", "exec", "ino"],
+        "child": ["h1", "h2", "nometa", "ino"],
         "b": ["h1", "h2"],
         "nest": False,
     }
@@ -81,7 +82,7 @@ def gen_specs(tier):
                             sub[AX] = ("dir", kind)
                 if ay is not None:
                     sub[AY] = ay
-                for kind in ("implicit", "explicit", "hashed"):
+                for kind in ("implicit", "explicit", "hashed", "emptyhash"):
                     if kind == "implicit" and not sub:
                         continue
                     if kind == "hashed" and any(
@@ -114,12 +115,14 @@ def resolve(spec):
         kind = spec[k][1]
         if kind == "explicit":
             flat[k] = (None, ("d",))
+        elif kind == "emptyhash":
+            flat[k] = ((), ("d",))   # an explicit directory whose HashInfo object is present but empty
         else:
             children = {
                 kk[len(k):]: flat[kk][0][1]
                 for kk in flat
                 if len(kk) > len(k) and kk[: len(k)] == k and flat[kk][1] != ("d",)
-                and flat[kk][0] is not None and not flat[kk][0][1].endswith(".dir")
+                and flat[kk][0] and not flat[kk][0][1].endswith(".dir")
             }
             flat[k] = (("md5", dir_hash(children)), ("d",))
     return flat
@@ -134,8 +137,9 @@ def build_index(flat):
     for k, (h, m) in flat.items():
         meta = None
         if m is not None:
-            meta = Meta(isdir=True) if m[0] == "d" else Meta(size=m[1], isexec=m[2])
-        hi = HashInfo(h[0], h[1]) if h else None
+            meta = Meta(isdir=True) if m[0] == "d" else Meta(size=m[1], isexec=m[2],
+                                                              inode=m[3] if len(m) > 3 else None)
+        hi = HashInfo(h[0], h[1]) if h else (HashInfo("md5", None) if h == () else None)
         idx[k] = DataIndexEntry(key=k, meta=meta, hash_info=hi, loaded=True if m == ("d",) else None)
     return idx
 
@@ -154,7 +158,7 @@ for mode in ("default", "hash_only", "meta_only"):
 
 def eff_meta(ent):
     h, m = ent
-    if m is None and h is not None:
+    if m is None and h:
         return ("f", None, False)  # the index fills in an empty Meta() for hashed entries
     return m
 
@@ -167,7 +171,7 @@ def visible(flat, shallow):
     out = {}
     for k, v in flat.items():
         hidden = any(
-            flat.get(k[:i]) is not None and flat[k[:i]][0] is not None
+            flat.get(k[:i]) is not None and flat[k[:i]][0]
             for i in range(1, len(k))
         )
         if not hidden:
@@ -177,7 +181,7 @@ def visible(flat, shallow):
 
 def classify(o, n, mode):
     if mode == "hash_only":
-        oh, nh = (o[0] if o else None), (n[0] if n else None)
+        oh, nh = ((o[0] or None) if o else None), ((n[0] or None) if n else None)
         if not oh and nh:
             return "add"
         if oh and not nh:
@@ -194,7 +198,7 @@ def classify(o, n, mode):
         return "add"
     if n is None:
         return "delete"
-    same = o[0] == n[0] and eff_meta(o) == eff_meta(n)
+    same = (o[0] or None) == (n[0] or None) and eff_meta(o) == eff_meta(n)
     return "unchanged" if same else "modify"
 
 
@@ -328,7 +332,7 @@ def check_shallow(fo, fn, mode, wu, flatgot, renames, optname, viol):
 
     def shaded(k):
         return any(
-            (f.get(k[:i]) is not None and f[k[:i]][0] is not None)
+            (f.get(k[:i]) is not None and f[k[:i]][0])
             for f in (fo_, fn_) for i in range(1, len(k))
         )
 
